@@ -239,9 +239,16 @@ def _check_value(run, world, folder, rc, fam, mod, res):
         if not mem:
             raise AnalysisError("%s: enumerator does not fold" % q)
         okc = _covers(vc)
+        # a class with its own `value` may document markers for some codes
+        # (QueryAssignedColourResponse); the inherited EnumResponse.value
+        # rejects every undefined code with ValueError
+        vdef = rc.lookup("value")
+        own_value = vdef is not None and vdef[0].name != "EnumResponse"
         for o in vc:
             if o.kind == "return" and o.val.kind == "enum":
                 okc = okc and o.bytes <= mem
+            elif o.kind == "return" and not own_value:
+                okc = False
             elif o.kind == "return":
                 # a marker for undefined codes is tolerated, a wrong member
                 # or an integer is not
@@ -363,7 +370,8 @@ def _check_status_loop(run, repo, world):
     r = c.lookup("status")
     if r is None:
         raise AnalysisError("BitmapResponse.status vanished")
-    fn = r[2]
+    from ..normal import normalise
+    fn = normalise(r[2], world, r[0].mod, r[0], aliases="params")
     cfg = CFG(fn, may_raise=explicit_raise_only, name="BitmapResponse.status")
     loops = [n for n in cfg.reachable if n.kind == "for"]
     K = CMD + "BitmapResponse.status"
